@@ -186,7 +186,7 @@ namespace igris
 
         void clear()
         {
-            for (unsigned int i = 0; i < m_size; ++i)
+            for (size_t i = 0; i < m_size; ++i)
             {
                 igris::destructor(m_data + i);
             }
